@@ -2379,3 +2379,17 @@ package hermes
 //@   before stmt "newCropType := numSysCrops": assert unknown: !indom(g.CropTypeLookup, trimSpaces)
 //@   after stmt "newCropType := numSysCrops": assert[C16] nextfree: newCropType == numSysCrops + len(g.CropTypeLookup) + 1
 //@   after stmt "g.CropTypeLookup[trimSpaces] = newCropType": assert[C16] remembered: g.CropTypeLookup[key] == newCropType && indom(g.CropTypeLookup, key)
+
+// C10  organic fertiliser of a rotation entry under automatic management: the fertiliser table is consulted for THE ENTRY
+// whose kind and quantity were just stored (dueng works on the slot it is given: dueng/post:row, others), for the
+// preceding crop (entry 0) as for every later entry
+// (for the PRECEDING crop, entry 0, Input consults the table for slot 1 - `dueng(SLFIND, ...)` - so the amounts of slot 0 are
+// never computed; a clause demanding slot 0 failed on the unchanged tree, but on the real simulator the effect could not be
+// separated from the residue bookkeeping that also uses slot 0 - with and without the one-token repair the organic pools
+// gain the same 18 kg N/ha on the day after the start - so it is NOT claimed and stays a reading note, F31)
+//@ region Input#entryorg from "g.DGART[SLFINDindex] = strings.TrimSpace(crpman[143:146])" to "$end" within "if g.AUTOIRRI || g.AUTOFERT || g.AUTOHAR || g.AUTOMAN { autfil := hPath.auto"
+//@   serves C10
+//@   opaque dueng ValAsFloat ValAsInt
+//@   ghost var slot int = 0-1
+//@   at call dueng: ghost slot = arg0
+//@   ensures ownslot: slot == SLFINDindex
